@@ -252,6 +252,24 @@ static uint64_t __attribute__((noinline)) gc_ring(int i) {
   ref(a, b); ref(b, a);
   return r + (deref(deref(a)) is a);
 }
+/* garbage in which one object owns another (Box -> Int, a heap Range -> its cursor Int): both die in the same sweep, in either order */
+static uint64_t __attribute__((noinline)) gc_owners(int i) {
+  uint64_t r = 0;
+  for (int k = 0; k < 3; k++) {
+    var b = new(Box, new(Int, $I(i + k)));
+    var rg = new(Range, $I(i + k + 2));
+    r = r * 31 + (uint64_t)c_int(deref(b)) + (uint64_t)len(rg);
+    foreach (x in rg) r += (uint64_t)c_int(x);
+  }
+  return r;
+}
+/* a live ring of heap Tuples (value, prev, next): every node is reached twice by the marking phase */
+static var __attribute__((noinline)) gc_tuple_ring(int i) {
+  var n[3];
+  for (int k = 0; k < 3; k++) n[k] = new(Tuple, new(Int, $I(i * 10 + k)));
+  for (int k = 0; k < 3; k++) { push(n[k], n[(k + 2) % 3]); push(n[k], n[(k + 1) % 3]); }
+  return n[0];
+}
 static int run_gcuse(const int* ops, int n) {
   volatile var slot = NULL;           /* a stack root */
   int have_tls = 0, serial = 0;
@@ -265,9 +283,15 @@ static int run_gcuse(const int* ops, int n) {
     case 6: if (gc_rootobj) { del_root(gc_rootobj); gc_rootobj = NULL; } break;
     case 4: { var v = new(Int, $I(7 + serial++)); var a = new(Array, Ref, v); slot = a; break; }   /* reachable only through a container */
     case 7: T_u(gc_ring(3 + serial++)); break;
+    case 8: T_u(gc_owners(5 + serial++)); break;
+    case 9: slot = gc_tuple_ring(serial++); break;
     }
     T_mark("gcuse");
-    if (slot) { if (type_of((var)slot) is Int) T_u((uint64_t)c_int((var)slot)); else { T_u((uint64_t)c_int(deref(get((var)slot, $I(0))))); } }
+    if (slot) {
+      if (type_of((var)slot) is Int) T_u((uint64_t)c_int((var)slot));
+      else if (type_of((var)slot) is Tuple) { var x = (var)slot; for (int k = 0; k < 4; k++) { T_u((uint64_t)c_int(get(x, $I(0)))); x = get(x, $I(2)); } }
+      else { T_u((uint64_t)c_int(deref(get((var)slot, $I(0))))); }
+    }
     if (have_tls) T_str(c_str(get(current(Thread), $S("cfgk"))));
     if (gc_rootobj) T_u((uint64_t)c_int(gc_rootobj));
   }
@@ -344,7 +368,7 @@ struct domain { const char* name; int nops; int depth; int fixedlen; };
 static struct domain DOM[] = {
   { "array", 16, 4, 0 }, { "list", 16, 4, 0 }, { "table", 14, 4, 0 }, { "tree", 14, 4, 0 }, { "string", 10, 4, 0 },
   { "exc", 3, 5, 1 }, { "view", 6, 4, 1 },
-  { "gcuse", 8, 4, 0 }, { "strarray", 8, 4, 0 }, { "strlist", 8, 4, 0 }, { "strtable", 8, 4, 0 },
+  { "gcuse", 10, 4, 0 }, { "strarray", 8, 4, 0 }, { "strlist", 8, 4, 0 }, { "strtable", 8, 4, 0 },
 };
 
 static int run_prog(int d, const int* ops, int n) {
